@@ -6,7 +6,12 @@ ids=${@:-C01 C02 C03 C04 C05 C06 C07 C08 C09 C10 C11 C12 C13 C14 C15 C16 C17 C18
 for id in $ids; do
   t0=$(date +%s)
   VERIF_SEED=1 VERIF_TIER=$tier ./check $id --tier $tier > /tmp/runall-$id.log 2>&1; rc=$?
-  if [ "$tier" = thorough ] && [ -f evidence/$id.json ]; then mkdir -p evidence/thorough; cp evidence/$id.json evidence/thorough/$id.json; fi
+  if [ "$tier" = thorough ] && [ -f evidence/$id.json ]; then
+    # keep the thorough evidence next to the quick evidence (evidence/<id>.json stays the quick tier's, which is what
+    # the registered quick commands rewrite)
+    mkdir -p evidence/thorough/runs; cp evidence/$id.json evidence/thorough/$id.json; rm -rf evidence/thorough/runs/$id; cp -r evidence/runs/$id evidence/thorough/runs/$id
+    git checkout -q -- evidence/$id.json evidence/runs/$id 2>/dev/null
+  fi
   echo "$id rc=$rc $(( $(date +%s) - t0 ))s $(grep -E '^check ' /tmp/runall-$id.log | cut -c1-160)"
   grep -E '^(VIOLATION|INCONCLUSIVE|KNOWN)' /tmp/runall-$id.log | cut -c1-300
 done
